@@ -755,7 +755,17 @@ func Gen(t *rapid.T, o Options) History {
 		if o.EmptySubjects && rapid.IntRange(0, 15).Draw(t, "emptySubject") == 15 {
 			c.Subject, c.Type = "", ""
 		}
-		if err := g.st.apply(c); err != nil {
+		for {
+			err := g.st.apply(c)
+			if err == nil {
+				break
+			}
+			// git's content hash is weak: two unrelated short files may collide and make a rename pairing
+			// ambiguous. Such a commit is written with fewer operations instead.
+			if len(c.Ops) > 1 && strings.Contains(err.Error(), "rename source") {
+				c.Ops = c.Ops[:len(c.Ops)-1]
+				continue
+			}
 			panic("ggen: generator produced an invalid operation list: " + err.Error())
 		}
 		h.Commits = append(h.Commits, c)
